@@ -799,3 +799,39 @@ class Gen:
         ops = [r.pick([";", "&&", "||", "\n", "\n", "&"]) for _ in items[1:]]
         p = Seq(items, ops)
         return p, p.render()
+
+
+# ---------------------------------------------------------------- the same word, quoted differently
+
+def requote(r, w: str) -> str:
+    """another source spelling of the word `w` (bash's quote removal gives `w` back): the word is cut into pieces and each
+    piece is written bare with backslashes, in single quotes, in double quotes or in $'…' with escapes"""
+    if not w:
+        return r.pick(["''", '""', "$''"])
+    cuts = sorted({r.randrange(1, len(w)) for _ in range(r.randint(0, 2))}) if len(w) > 1 else []
+    pieces = [w[a:b] for a, b in zip([0] + cuts, cuts + [len(w)])]
+    out = []
+    for p in pieces:
+        k = r.random()
+        if k < 0.3:
+            out.append("".join("\\" + c if (r.chance(0.4) or not (c.isalnum() or c in "_-./=:,+@%")) and c != "\n" else c for c in p))
+        elif k < 0.55 and "'" not in p:
+            out.append("'" + p + "'")
+        elif k < 0.8:
+            out.append('"' + "".join("\\" + c if c in '$`"\\' else c for c in p) + '"')
+        else:
+            body = ""
+            for c in p:
+                j = r.random()
+                if c in "'\\":
+                    body += "\\" + c
+                elif j < 0.25 and ord(c) < 256:
+                    body += "\\x%02x" % ord(c)
+                elif j < 0.4 and ord(c) < 256:
+                    body += "\\%03o" % ord(c)
+                elif j < 0.5:
+                    body += "\\u%04x" % ord(c) if ord(c) < 0x10000 else c
+                else:
+                    body += c
+            out.append("$'" + body + "'")
+    return "".join(out)
